@@ -109,6 +109,18 @@ Proof.
   destruct (subscript c objs); reflexivity.
 Qed.
 
+Lemma is_func_sub c l : is_func (TSub c l) = false.
+Proof.
+  unfold is_func. rewrite pyeval_sub. destruct (mapM pyeval l) as [objs|x]; [|reflexivity]. cbn [bind].
+  destruct (subscript c objs); reflexivity.
+Qed.
+
+Lemma is_func_union_written l : union_written l = true -> is_func (TUnion l) = false.
+Proof.
+  intros Hw. destruct (union_written_spec l Hw) as [objs [E K]]. unfold is_func.
+  rewrite pyeval_union, E. cbn [bind]. rewrite (keeps_mk_union _ K). reflexivity.
+Qed.
+
 Section OptDecl.
   Variable re_match : N -> pystr -> bool.
   Variable e : env.
@@ -124,7 +136,8 @@ Section OptDecl.
                               d_opt := true |}.
   Proof.
     intros Hs Hm Hm' Hw Hok Hn Hi. apply decl_sound.
-    apply de_annot; cbn [d_name d_annot d_kw d_eq d_ty d_opt]; try reflexivity; try exact Hi.
+    apply de_annot; cbn [d_name d_annot d_kw d_eq d_ty d_opt]; try reflexivity; try exact Hi;
+      try (apply is_func_union_written; exact Hw); try apply is_func_sub.
     - apply sp_union_sub; assumption.
     - rewrite (marks_optional_union l Hw Hm), Hn. reflexivity.
   Qed.
@@ -138,7 +151,8 @@ Section OptDecl.
                               d_opt := o |}.
   Proof.
     intros Hs Hm Hm' Hw Hok Hn Hi. apply decl_sound.
-    apply de_annot; cbn [d_name d_annot d_kw d_eq d_ty d_opt]; try reflexivity; try exact Hi.
+    apply de_annot; cbn [d_name d_annot d_kw d_eq d_ty d_opt]; try reflexivity; try exact Hi;
+      try (apply is_func_union_written; exact Hw); try apply is_func_sub.
     - apply sp_union_sub; assumption.
     - rewrite (marks_optional_union l Hw Hm), Hn, marks_optional_sub. reflexivity.
   Qed.
